@@ -63,6 +63,7 @@ type lwDef struct {
 	measMode    int
 	constSeries bool // groundwater series with one level throughout: a constant groundwater depth
 	measShort   bool    // the measurement file has the short layout: readings for 0-9 dm only
+	autoTable   int         // management table variant of c16Row for autoRot (0 = base)
 	autoRot     int         // >0: rotation c16Rots[autoRot-1] under automatic sowing and harvest (management table of C16, base variant)
 	heights     *[3]float64 // weather files with the third header line (altitude, wind height, base CO2)
 	leachAbove  bool    // leaching depth above the profile bottom (outside C02's quantifier)
@@ -164,6 +165,8 @@ func lwDefs() []lwDef {
 			cfg: map[string]string{"AutoSowingHarvest": "1", "AutoHarvest": "1", "AutoIrrigation": "1"}},
 		{name: "sand-automatic-harvest-only", soil: "sand20", gw: 14, et: 2, start: s1, days: 760, initW: 0.7, initN: 40, autoRot: 1,
 			cfg: map[string]string{"AutoHarvest": "1", "AutoFertilization": "1"}},
+		{name: "sand-automatic-harvest-at-any-moisture", soil: "sand20", gw: 14, et: 3, start: s1, days: 760, initW: 0.7, initN: 40, autoRot: 1, autoTable: 9,
+			cfg: map[string]string{"AutoHarvest": "1"}},
 		{name: "loam-constant-series-12", soil: "silt20", gw: 99, series: [][2]float64{{-5, 12}, {100, 12}, {333, 12}, {500, 12}}, constSeries: true, et: 3, start: s2, days: 520, initW: 0.7, initN: 30,
 			rot:  []proj.CropEntry{{Crop: "SW", Sow: "2002-03-25", Harvest: "2002-08-20", Rex: 50}, {Crop: "WW", Sow: "2002-10-01", Harvest: "2003-08-05"}},
 			fert: []proj.Fert{{Date: "2002-04-10", Amount: 70, Kind: "KAS"}, {Date: "2003-03-10", Amount: 90, Kind: "KAS"}}},
@@ -176,6 +179,16 @@ func lwCount() int { return len(lwDefs()) }
 
 // lwWeather: the benign seasonal climate with variant-specific spells (all values exactly representable).
 func lwWeather(start time.Time, n, variant int) []proj.Day {
+	if variant == 6 {
+		// rain on every day (the temperatures of the hot-summer variant, under which crops mature before their latest harvest
+		// date): each day is split into several sub-steps (2, 4, 8 and more), whatever else happens on it - also the days
+		// on which the model itself decides to harvest (at most 20 mm of rain are allowed on such a day)
+		w := lwWeather(start, n, 1)
+		for i := range w {
+			w[i].Precip = []float64{6.5, 11, 8, 17, 7, 12.5, 19}[i%7]
+		}
+		return w
+	}
 	w := seasonWeather(start, n)
 	for i := range w {
 		t := start.AddDate(0, 0, i)
@@ -259,7 +272,7 @@ func lwBuild(sp lwSpec) *lwInfo {
 		for _, cr := range c16Rots[df.autoRot-1] {
 			p.Rotation = append(p.Rotation, proj.CropEntry{Crop: cr.code, Sow: cr.sow, Harvest: cr.harvest, Rex: 50})
 			if !seen[cr.code] {
-				table.WriteString(c16Row(cr, 0) + "\n")
+				table.WriteString(c16Row(cr, df.autoTable) + "\n")
 				seen[cr.code] = true
 			}
 		}
@@ -329,12 +342,12 @@ func lwBuild(sp lwSpec) *lwInfo {
 	return info
 }
 
-// lwSpecs: every world under weather variants 0-2 in the quick tier, under all six in the thorough tier.
+// lwSpecs: every world under weather variants 0-2 and 6 (rain on every day) in the quick tier, under all seven in the thorough tier.
 func lwSpecs(tier string, seed int, constGWOnly bool) []lwSpec {
 	var out []lwSpec
 	nv := 3
 	if tier == "thorough" {
-		nv = 6
+		nv = 7
 	}
 	for w, df := range lwDefs() {
 		if constGWOnly && (df.gh != 0 || len(df.series) > 0) && !df.constSeries {
@@ -342,6 +355,9 @@ func lwSpecs(tier string, seed int, constGWOnly bool) []lwSpec {
 		}
 		for v := 0; v < nv; v++ {
 			out = append(out, lwSpec{World: w, Var: v})
+		}
+		if tier != "thorough" {
+			out = append(out, lwSpec{World: w, Var: 6})
 		}
 	}
 	return out
